@@ -51,6 +51,12 @@ func check(c Case) (o ev.Outcome) {
 	if chained {
 		o.Class("augment-of-augment")
 	}
+	for _, m := range c.Set.Modules {
+		if len(m.Augments) > 0 && strings.HasPrefix(m.Augments[0].Nodes[0].Name, "link") {
+			o.Class("chain-of-augments-across-modules-named-in-another-order")
+			break
+		}
+	}
 	o.Sample = map[string]any{"fault": c.Fault, "orders": orders, "sources": schema.Sources(c.Set, nil)}
 	if c.Fault != "" {
 		o.Class("fault/" + c.Fault)
@@ -272,6 +278,11 @@ func gen(t *rapid.T) Case {
 	schema.AugmentExtras = true
 	set, _ := schema.Generate(t, o)
 	schema.AddAugments(t, set, 1, 6)
+	chain := rapid.IntRange(0, 3).Draw(t, "augment-chain") == 0
+	if chain {
+		// a chain of augments across new modules whose names are in no relation to the order of the chain
+		schema.AddAugmentChain(t, set)
+	}
 	c := Case{Set: set}
 	if rapid.IntRange(0, 3).Draw(t, "plant") == 0 {
 		c.Fault = plant(t, set)
